@@ -17,10 +17,10 @@ TNext ==
     \/ Is("reset") /\ P_Reset
     \/ Is("newfile") /\ P_NewFile
     \/ Is("ring") /\ P_NewRing(E.depth) /\ Len(rmeta) + 1 = E.r
-    \/ Is("push") /\ P_Push(E.r, E.kind, E.f, E.tgt, E.bad, E.llo, E.lhi, E.len, E.ok) /\ Len(ops) + 1 = E.ud
+    \/ Is("push") /\ P_Push(E.r, E.tag, E.kind, E.f, E.tgt, E.bad, E.llo, E.lhi, E.len, E.ok) /\ Len(ops) + 1 = E.ud
     \/ Is("submit") /\ IF E.ok THEN P_Submit(E.r) ELSE UNCHANGED pvars
     \/ Is("sync") /\ P_Sync(E.r, E.n)
-    \/ Is("cqe") /\ P_Cqe(E.r, E.ud, E.res, E.data, E.exp, E.expdata, E.files = E.tfiles)
+    \/ Is("cqe") /\ P_Cqe(E.r, E.tag, E.res, E.data, E.exp, E.expdata, E.files = E.tfiles)
     \/ Is("none") /\ P_PopNone(E.r)
     \/ Is("tick") /\ P_Tick(E.now)
     \/ Is("dropring") /\ P_DropRing(E.r)
